@@ -74,6 +74,10 @@ pub enum InAmt {
 pub enum InId {
     Fresh(u8),
     Taken(u8),
+    /// the id a canonical registration of token `tok` has / would have
+    CanonicalOf(u8),
+    /// the id a local deployment by (caller, salt) has / would have
+    LocalOf { caller: u8, salt: u8 },
 }
 
 #[derive(Serialize, Deserialize, Clone, Debug, PartialEq, Eq, Hash)]
